@@ -36,6 +36,37 @@ def strategy(tier, flags):
     return st.one_of(fst_pair(), fst_pair(), st.fixed_dictionaries({"kind": st.just("fa"), "fa": fa}))
 
 
+EXHAUSTIVE_SCOPE = {
+    "thorough": "every transducer with states {0, 1}, start state 0, any set of final states, and any subset of the 16 "
+                "transitions (p, a|eps, q, []|[x]) whose epsilon cycles write nothing, paired with one fixed partner "
+                "(0 -a/y-> 1, 1 final) for union / concatenation (57344 transducers x the translation of every input word of length <=3)",
+}
+
+
+def exhaustive(tier, shard, nshards):
+    if tier != "thorough":
+        return
+    import itertools
+    possible = [[p, a, q, o] for p in (0, 1) for a in ("a", None) for q in (0, 1) for o in ([], ["x"])]
+    partner = {"starts": [0], "finals": [1], "trans": [[0, "a", 1, ["y"]]], "pool": "scope"}
+    idx = 0
+    for mask in range(2 ** len(possible)):
+        trans = [possible[i] for i in range(len(possible)) if mask >> i & 1]
+        # the property's domain: epsilon cycles write nothing
+        eps = [(t[0], t[2], bool(t[3])) for t in trans if t[1] is None]
+        reach = {(p, q) for p, q, _w in eps}
+        for k, i, j in itertools.product((0, 1), repeat=3):
+            if (i, k) in reach and (k, j) in reach:
+                reach.add((i, j))
+        if any(w and ((q, p) in reach or p == q) for p, q, w in eps):
+            continue
+        for finals in ([], [0], [1], [0, 1]):
+            if idx % nshards == shard:
+                yield {"kind": "fst", "f1": {"starts": [0], "finals": finals, "trans": trans, "pool": "scope"},
+                       "f2": partner}
+            idx += 1
+
+
 def rel_concat(r1, r2, words):
     out = {}
     for w in words:
